@@ -101,7 +101,7 @@ thread_local! {
     static FILL_STYLE: std::cell::Cell<u8> = const { std::cell::Cell::new(0) };
 }
 
-pub const FILL_STYLES: [u8; 10] = [0, 1, 2, 3, 4, 5, 6, 7, 8, 9];
+pub const FILL_STYLES: [u8; 12] = [0, 1, 2, 3, 4, 5, 6, 7, 8, 9, 10, 11];
 
 /// Run `f` (typically a catalogue constructor) with opaque field contents drawn from another pattern.
 pub fn with_fill_style<T>(style: u8, f: impl FnOnce() -> T) -> T {
@@ -158,6 +158,22 @@ impl W {
     /// definite length that covers the rest of the field).
     pub fn fill(&mut self, n: usize, seed: u8) -> &mut W {
         let style = FILL_STYLE.with(|s| s.get());
+        if style == 10 || style == 11 {
+            // DER SEQUENCE in long form (30 82 hi lo) whose inner length under- (10) or overstates (11) the rest
+            let mut v: Vec<u8> = Vec::with_capacity(n);
+            let rest = n.saturating_sub(4);
+            let inner = if style == 10 { rest.saturating_sub(5) } else { rest + 5 };
+            for b in [0x30u8, 0x82, (inner >> 8) as u8, inner as u8] {
+                if v.len() < n {
+                    v.push(b);
+                }
+            }
+            while v.len() < n {
+                v.push(seed.wrapping_add((v.len() % 251) as u8));
+            }
+            self.buf.extend_from_slice(&v);
+            return self;
+        }
         if (6..=9).contains(&style) {
             // DER-shaped content: tag, definite length covering the rest of the field, counting body
             let tag = [0x06u8, 0x30, 0x04, 0x02][(style - 6) as usize];
